@@ -140,6 +140,7 @@ class PtyEnv:
         self.hold_replies = False  # when True, replies are queued in self.held
         self.held = []
         self.set_winsize(cols, rows, xpix, ypix)
+        self.sane_attr = termios.tcgetattr(self.slave)
         self.thread = threading.Thread(target=self._drain, name="vf-terminal", daemon=True)
         self.thread.start()
 
@@ -190,7 +191,13 @@ class PtyEnv:
                 break
             if not data:
                 break
-            self._on_output(data)
+            try:
+                self._on_output(data)
+            except Exception:
+                import traceback
+
+                self.diag("vf-terminal thread error:", traceback.format_exc())
+                self._scan = bytearray()
 
     def _on_output(self, data):
         scan = self._scan
@@ -256,8 +263,18 @@ class PtyEnv:
         d = self.persona.delay(kind) if self.persona.delay else 0
         if d:
             time.sleep(d)
-        os.write(self.master, rep)
-        self.replies_sent += 1
+        # a reply must never block the terminal thread (nobody may be reading input)
+        import select
+
+        if select.select([], [self.master], [], 0.5)[1]:
+            os.write(self.master, rep)
+            self.replies_sent += 1
+        else:
+            self.replies_dropped = getattr(self, "replies_dropped", 0) + 1
+
+    def flush_input(self):
+        """Discards input nobody read (e.g. replies to garbage that looked like a query)."""
+        termios.tcflush(self.slave, termios.TCIFLUSH)
 
     def type_input(self, data: bytes):
         """Simulates the user typing / the terminal sending unsolicited input."""
